@@ -24,7 +24,10 @@ META = {
         'mode and from stored lines (so that strings point into the program text), with CLEAR ,n sizes leaving from 20 '
         'bytes to the default for strings. After every statement every live string variable / element is compared with '
         'the model; FRE("") with the byte budget; error 14 / 7 must be justified by the budget. Collections really seen '
-        'are counted (hundreds per shard) and the string-space invariants are checked after each.'),
+        'are counted (hundreds per shard) and the string-space invariants are checked after each. Histories also survive '
+        'statements that fail inside a memory-management section (CHAIN / CHAIN ALL / CHAIN MERGE to a missing file, with '
+        'and without COMMON declarations, untrapped in direct mode and trapped by ON ERROR .. RESUME NEXT) and continue '
+        'their string churn afterwards under the same oracle.'),
     'level_note': (
         'Trusted: the harness, get_variable for reading strings back, vf/models/c09_rstr.py for the function values. '
         'The budget takes "memory size minus program" from FRE("") measured right after CLEAR with nothing allocated, '
@@ -39,7 +42,7 @@ META = {
     'design_ref': 'DESIGN.md section 4 C10',
     'assumptions': ['GW-BASIC variable table layout for the sizes of variable and array records',
                     'reference semantics of the string functions as in C09'],
-    'require_counters': {'any': ['gc_seen', 'oss_errors_seen', 'oom_seen', 'fre_after_collection_checks',
+    'require_counters': {'any': ['gc_seen', 'oss_errors_seen', 'oom_seen', 'fre_after_collection_checks', 'failed_chain_survived',
                                  'program_mode_steps', 'gc_during_fn_call_seen', 'values_compared_after_gc_steps']},
     'timeout': {'quick': 900, 'thorough': 10800},
 }
@@ -136,6 +139,12 @@ class Run(object):
         box = self.box
         self.fn_line = {}
         self.stored_line = {}
+        if cfg.get('common'):
+            # COMMON declarations (never executed by the histories; CHAIN gathers them from the program text)
+            box.ex(b'5 COMMON A$,B$,P$(),N%')
+        # a CHAIN to a file that does not exist, trapped by ON ERROR ... RESUME NEXT
+        for l in (b'900 ON ERROR GOTO 930', b'910 CHAIN "NOSUCH.BAS"', b'920 ON ERROR GOTO 0:END', b'930 RESUME NEXT'):
+            box.ex(l)
         line = 10
         for k, fn in enumerate(cfg['fns']):
             box.ex(b'%d ' % line + M.stmt_text(('deffn',) + tuple(fn)) + b':END')
@@ -164,6 +173,8 @@ class Run(object):
     def step(self, st, index):
         """Execute one step; returns False if skipped. Raises Failure."""
         mem, h = self.mem, self.h
+        if st[0] == 'c':
+            return self.failed_chain(st[1], index)
         if st[0] == 'd':
             stmt, mode = st[1], 'direct'
         elif st[0] == 'g':
@@ -280,6 +291,52 @@ class Run(object):
             cnt.count('steps_with_string_in_program_text')
         return True
 
+    def failed_chain(self, variant, index):
+        """
+        A statement that fails INSIDE a memory-management section and is survived: CHAIN to a missing file
+        (variant 0: direct mode, untrapped; 1: in the program, trapped by ON ERROR .. RESUME NEXT; 2: CHAIN
+        .. ,ALL; 3: CHAIN MERGE), with or without COMMON declarations in the program.  What is left of the
+        variables after the failure is not pinned, so the history continues from a plain CLEAR (memory size
+        unchanged) and creates its variables again; from then on the usual oracle applies.
+        """
+        text = [b'CHAIN "NOSUCH.BAS"', b'GOTO 900', b'CHAIN "NOSUCH.BAS",,ALL', b'CHAIN MERGE "NOSUCH.BAS"'][variant]
+        self.executed.append(('c', variant))
+        self.texts.append(text + b' : CLEAR')
+        out = self._ex(text, index)
+        code = self.h.err_of(out)[0]
+        self.cnt.count('failed_chain_survived')
+        if variant == 1 and code == 0:
+            self.cnt.count('failed_chain_trapped')
+        where = 'step %d %r' % (index, text)
+        # File not found; or Out of string space / Out of memory while the COMMON strings are copied with the
+        # collector held (also a failure inside the memory-management section; CHAIN's own needs are not C10's)
+        if code in (14, 7):
+            self.cnt.count('failed_chain_out_of_space')
+        if code not in ((0, 53, 14, 7) if variant == 1 else (53, 14, 7)):
+            raise Failure('chain:missing-file:error-class', '%s -> error %d, expected File not found' % (where, code), index)
+        out = self._ex(b'CLEAR', index)
+        if self.h.err_of(out)[0]:
+            raise Failure('clear:error-after-failed-chain', '%s then CLEAR -> %r' % (where, out), index)
+        mem = self.mem
+        mem.scal.clear()
+        mem.arr.clear()
+        mem.fns.clear()
+        mem.fn_records.clear()
+        mem.ints.clear()
+        free = self._number(b'PRINT FRE("")', index)[0]
+        if free != mem.f0:
+            raise Failure('fre:after-clear-following-a-failed-chain',
+                          '%s, then CLEAR: FRE("") = %d, but %d with the same program and memory size before' % (
+                              where, free, mem.f0), index)
+        self._ex(b'N%=0:K%=0', index)
+        mem.ints['N%'] = 0
+        mem.ints['K%'] = 0
+        inv = self.take_invariants(where)
+        if inv:
+            raise Failure(inv[0][0], '%s %s' % (inv[0][1], where), index)
+        # the caller creates the variables again (setup_steps) as ordinary steps of the history
+        return True
+
     def take_invariants(self, where):
         """Hard invariant failures of the monitor; mechanism notes are only remembered."""
         hard = []
@@ -344,8 +401,14 @@ def run_history(harness, minv, cfg, hid, steps=None, rng=None, nsteps=0, counter
                 tries = 0
                 while idx < nsteps and tries < nsteps * 3:
                     tries += 1
-                    if run.step(gen.next_step(run.mem), idx):
+                    st = gen.next_step(run.mem)
+                    if run.step(st, idx):
                         idx += 1
+                        if st[0] == 'c':
+                            # everything is gone after the survived failure + CLEAR: create the variables again
+                            for st2 in setup_steps(cfg):
+                                if run.step(st2, idx):
+                                    idx += 1
             else:
                 for st in steps:
                     if run.step(st, idx):
@@ -368,18 +431,20 @@ def shrink(harness, minv, cfg, hid, steps, fail, max_runs=140):
     """Greedy deletion of steps that keeps the same violation key."""
     steps = list(steps)
     runs = 0
+    work = 0              # statements replayed so far: bounds the cost for long histories
     chunk = max(1, len(steps) // 2)
     texts = None
-    while chunk >= 1 and runs < max_runs:
+    while chunk >= 1 and runs < max_runs and work < 25000:
         i = 0
         progressed = False
-        while i < len(steps) and runs < max_runs:
+        while i < len(steps) and runs < max_runs and work < 25000:
             cand = steps[:i] + steps[i + chunk:]
             if not cand:
                 i += chunk
                 continue
             runs += 1
             ex, tx, f = run_history(harness, minv, cfg, hid, steps=cand)
+            work += len(ex)
             if f is not None and f.key == fail.key:
                 steps, texts, fail = ex, tx, f
                 progressed = True
@@ -399,7 +464,7 @@ def rand_cfg(rng):
     scalars = ['A$', 'B$', 'X$', 'Y$'] + rng.sample(['C$', 'D$', 'LONGNAME$', 'Q9$'], rng.randint(0, 2))
     maxlen = 255 if budget is None else max(4, min(255, budget // 3))
     cfg = {'budget': budget, 'scalars': scalars, 'pbound': rng.randint(2, 5), 'ebound': rng.randint(1, 4),
-           'maxlen': maxlen, 'fns': [], 'stored': []}
+           'maxlen': maxlen, 'fns': [], 'stored': [], 'common': rng.random() < 0.5}
     X, Y = ('var', 'X$'), ('var', 'Y$')
     bodies = [
         ('cat', X, Y), ('cat', ('cat', X, Y), X), ('cat', ('cat', X, ('lit', b'-')), Y),
@@ -589,6 +654,8 @@ class Generator(object):
             return ('d', ('dim', 'E$', rng.randint(0, 6)))
         if self.cfg['stored'] and rng.random() < 0.22:
             return ('g', rng.randrange(len(self.cfg['stored'])))
+        if rng.random() < 0.012:
+            return ('c', rng.randrange(4))
         return ('d', self.statement(mem))
 
 
@@ -694,6 +761,27 @@ def directed_scenarios():
                  ('g', 0), ('g', 1), ('d', ('lset', X, ('cat', ('cat', A, ('lit', b'-')), ('fn', 'FNZ$', [])))),
                  ('d', ('midset', X, 2, 4, ('cat', ('cat', B, ('lit', b'+')), ('str', ('nfn', 'FNL%', [B]))))), ('d', ('fre_both',))]
         out.append(('pending-temporaries-left-of-nested-evaluation:%d' % budget, cfg, steps))
+    # a statement that fails inside a memory-management section (CHAIN to a missing file) is survived; string churn after it
+    for common in (False, True):
+        cfg = dict(base, budget=150, common=common, fns=[('FNC$', ['X$', 'Y$'], ('cat', X, Y))])
+        steps = []
+
+        def churn(tag):
+            out_ = []
+            for i in range(12):
+                out_.append(('d', ('let', ('elem', 'P$', i % 4), ('cat', ('string', 20 + i, 65 + i), ('lit', tag)))))
+                out_.append(('d', ('let', A, ('cat', ('elem', 'P$', (i + 1) % 4), ('chr', 48 + i)))))
+                if i % 4 == 3:
+                    out_.append(('d', ('let', B, ('fn', 'FNC$', [A, ('lit', tag)]))))
+                    out_.append(('d', ('fre_s',)))
+            out_.append(('d', ('fre_both',)))
+            return out_
+        steps += churn(b'a')
+        for variant in (0, 1, 2, 3):
+            steps.append(('c', variant))
+            steps += setup_steps(cfg)
+            steps += churn(b'v%d' % variant)
+        out.append(('failed-chain-survived:%s' % ('with-common' if common else 'no-common'), cfg, steps))
     # MID$ statement on a target in the program text: the copy into string space collects while the source is a temporary
     for garbage in (44, 50, 56):
         cfg = dict(base, budget=90, stored=[('let', A, ('lit', b'0123456789012345678901234567890123456789'))])
